@@ -96,9 +96,12 @@ pub fn spawn(
                                 .map(|seq| seq + 1)
                                 .collect();
 
+                        // Wait until the confirmation actor has advanced the watermark: reads are
+                        // bounded by it, and a client that gets its acknowledgement must be able
+                        // to read its own write with its very next request
                         let _ = config
                             .confirmation_ref
-                            .tell(UpdateConfirmationWithBroadcast {
+                            .ask(UpdateConfirmationWithBroadcast {
                                 partition_id,
                                 versions: confirmation_versions.clone(),
                                 confirmation_count,
